@@ -3,6 +3,7 @@ package model
 import (
 	"encoding/binary"
 	"fmt"
+	"math"
 	"sort"
 )
 
@@ -17,6 +18,10 @@ type Ent struct {
 	V    int
 	E    int64 // absolute expiration (UnixNano), 0 = never
 	Phys uint8
+	// Far: the TTL was so large that the expiration instant is not representable as UnixNano
+	// (beyond year 2262). The entry must stay visible for the whole case; what GetWithExpiration /
+	// GetWithTTL report for it is not pinned.
+	Far bool
 }
 
 // M is the reference model: a TTL cache over keys 0..len(Ents)-1 plus an
@@ -35,6 +40,7 @@ type M struct {
 	// StampNow, when non-zero, is the instant new expirations are computed from (ticking-clock
 	// mode: a call decides liveness with its first clock read and stamps with its last).
 	StampNow int64
+	DOvr     *int64 // default expiration this one call may have read (a default set concurrently with the call)
 	Tick     bool // ticking-clock mode
 	NoClock  bool // the call being checked read no clock: it cannot have seen a possibly-cleaned entry as live
 	Now    int64
@@ -105,16 +111,28 @@ func (m *M) ExpiredUncleaned(k int) bool { return k >= 0 && k < len(m.Ents) && m
 
 // Exp computes the expiration instant for TTL argument d at the current time.
 func (m *M) Exp(d int64) int64 {
+	e, _ := m.exp2(d)
+	return e
+}
+
+func (m *M) exp2(d int64) (int64, bool) {
 	if d == DefaultExpiration {
 		d = m.D
+		if m.DOvr != nil {
+			d = *m.DOvr
+		}
 	}
 	if d > 0 {
+		base := m.Now
 		if m.StampNow != 0 {
-			return m.StampNow + d
+			base = m.StampNow
 		}
-		return m.Now + d
+		if base > math.MaxInt64-d {
+			return 0, true // not representable: effectively never within any case
+		}
+		return base + d, false
 	}
-	return 0
+	return 0, false
 }
 
 // At positions the model at the instants a call read from the ticking clock (no reads: unchanged).
@@ -161,7 +179,8 @@ func (m *M) LiveSet() []KV {
 func errf(f string, a ...interface{}) error { return fmt.Errorf(f, a...) }
 
 func (m *M) store(k, v int, d int64) {
-	m.Ents[k] = Ent{V: v, E: m.Exp(d), Phys: Present}
+	e, far := m.exp2(d)
+	m.Ents[k] = Ent{V: v, E: e, Phys: Present, Far: far}
 }
 
 func (m *M) touch(e *Ent) {
@@ -229,12 +248,14 @@ func (m *M) Step(o *Op, r *Res) error {
 				if err := wantVal(r, e.V, true); err != nil {
 					return err
 				}
-				switch o.K {
-				case CGetExp:
+				switch {
+				case e.Far:
+					// instant beyond the representable range: reported value not pinned
+				case o.K == CGetExp:
 					if r.T != e.E {
 						return errf("reported expiration instant %d, stored instant is %d", r.T, e.E)
 					}
-				case CGetTTL:
+				case o.K == CGetTTL:
 					want := NoExpiration
 					if e.E != 0 {
 						want = e.E - m.Now
@@ -318,7 +339,7 @@ func (m *M) Step(o *Op, r *Res) error {
 					return err
 				}
 			}
-			e.E = m.Exp(o.D)
+			e.E, e.Far = m.exp2(o.D)
 		} else {
 			if chk {
 				if err := wantAbsent(r); err != nil {
